@@ -4209,12 +4209,6 @@ class Client:
                 # prevents multiple callbacks for the same message.
                 message = self._in_messages.pop(mid)
                 self._handle_on_message(message)
-                self._inflight_messages -= 1
-                if self._max_inflight_messages > 0:
-                    with self._out_message_mutex:
-                        rc = self._update_inflight()
-                    if rc != MQTTErrorCode.MQTT_ERR_SUCCESS:
-                        return rc
 
         # FIXME: this should only be done if the message is known
         # If unknown it's a protocol error and we should close the connection.
